@@ -73,6 +73,13 @@ def parseEvent (e : String) : Parsed :=
   match splitN e ':' 2 with
   | ["N", _] => .skip
   | ["C"] => .skip
+  -- C:<kind>: what ends the connection next (eof, drop, rst, cut: the peer; app: Reconnect() of the application);
+  -- A:<n>:<auth_key_id>: the key id of the first encrypted frame on connection n; E:<caller>:<outcome>: a request
+  -- issued without a connection. Events of the connection lifecycle (Driver/C16Life.lean), none of the RPC machine
+  | ["C", _] => .skip
+  | ["A", _] => .skip
+  | ["E", _] => .skip
+  | ["Z"] => .skip   -- the scenario is over, the peer goes away
   | ["P", _] => .plain
   -- the application's handler was called (the Go oracle counts these)
   | ["H", _] => .skip
